@@ -35,16 +35,22 @@ CONSTANTS Procs,             \* e.g. {1,2}
           InitRows,          \* set of texts that already have a row
           TouchOnHit,        \* TRUE: a hit also updates last_hit (always_update_last_hit / entry older than a day)
           SharedInited,      \* TRUE: threads of one process (share parse.initialized_dbs)
-          DeferredSchemaTxn
+          DeferredSchemaTxn,
+          LockedCountsAsCorrupt,  \* as-built: a lock error during PRAGMA integrity_check is taken for corruption
+                                  \*           and the database file is removed
+          AllowTimeout       \* TRUE: at most one blocked call per behaviour may run into its busy timeout
 
 VARIABLES pc,        \* program counter per process
           lock,      \* sqlite lock per connection
           db,        \* committed database content [models, meta, metaKeys, rows]
           shadow,    \* per process: content as modified by its open write transaction, or NoShadow
           inited,    \* set of processes that passed the once-per-process init block
-          res,       \* per process: "none" | "hit" | "miss" | "tree" | "raised"
+          res,       \* per process: "none" | "hit" | "miss" | "tree" | "raised" | "timedout"
+          open,      \* set of processes with an open connection to the database file
+          timeouts,  \* number of busy timeouts so far (bounded by 1)
+          removedInUse,   \* history: the file was removed while another connection had it open
           last
-vars == <<pc, lock, db, shadow, inited, res, last>>
+vars == <<pc, lock, db, shadow, inited, res, open, timeouts, removedInUse, last>>
 
 TextOf(p) == IF SameText THEN 1 ELSE p
 NoShadow == [models |-> "-", meta |-> "-", metaKeys |-> FALSE, rows |-> {}]
@@ -63,12 +69,14 @@ Init == /\ pc = [p \in Procs |-> "connect"]
         /\ db = [models |-> InitModels, meta |-> InitMeta, metaKeys |-> (InitMeta = "ok"), rows |-> InitRows]
         /\ shadow = [p \in Procs |-> NoShadow]
         /\ inited = {} /\ res = [p \in Procs |-> "none"]
+        /\ open = {} /\ timeouts = 0 /\ removedInUse = FALSE
         /\ last = [act |-> "init"]
 
 Goto(p, l) == pc' = [pc EXCEPT ![p] = l]
 Step(p, what, outcome) == last' = [act |-> "step", p |-> p, at |-> pc[p], what |-> what, outcome |-> outcome]
 UD == UNCHANGED <<db, shadow>>
 UR == UNCHANGED <<inited, res>>
+UO == UNCHANGED <<open, timeouts, removedInUse>>
 
 (* ---- statement classes -------------------------------------------------- *)
 (* explicit BEGIN: deferred takes no lock; immediate takes RESERVED (it holds nothing, so it WAITS) *)
@@ -115,67 +123,84 @@ Proc(p) ==
   LET t == TextOf(p)
       s == Seen(p) IN
   \/ /\ pc[p] = "connect" /\ UD /\ UR /\ UNCHANGED lock /\ Step(p, "connect", "ok")
+     /\ open' = open \cup {p} /\ UNCHANGED <<timeouts, removedInUse>>
      /\ Goto(p, IF IsInited(p) THEN "lk_begin" ELSE "integrity")
-  \/ /\ pc[p] = "integrity" /\ UD /\ UR /\ ReadAuto(p, "cs1_begin")
+  \/ /\ pc[p] = "integrity" /\ UD /\ UR /\ UO /\ ReadAuto(p, "cs1_begin")
+  (* the integrity check is blocked (a writer is PENDING) until the busy timeout expires: "database is locked" *)
+  \/ /\ pc[p] = "integrity" /\ ~CanShare(p) /\ AllowTimeout /\ timeouts = 0
+     /\ timeouts' = 1 /\ UD /\ UNCHANGED <<lock, inited, open, removedInUse>>
+     /\ Step(p, "read-auto", "timeout")
+     /\ IF LockedCountsAsCorrupt
+        THEN Goto(p, "rm_close") /\ UNCHANGED res
+        ELSE pc' = [pc EXCEPT ![p] = "raised"] /\ res' = [res EXCEPT ![p] = "timedout"]
+  (* as-built only: conn.close(); os.remove(db); connect again *)
+  \/ /\ pc[p] = "rm_close" /\ UD /\ UR /\ UNCHANGED <<lock, timeouts, removedInUse>>
+     /\ open' = open \ {p} /\ Goto(p, "rm_remove") /\ Step(p, "close", "ok")
+  \/ /\ pc[p] = "rm_remove" /\ UD /\ UNCHANGED <<lock, inited, open, timeouts>>
+     /\ removedInUse' = (open \ {p} # {})
+     /\ res' = [res EXCEPT ![p] = "removed-db"]
+     /\ Goto(p, "done") /\ Step(p, "os.remove", "ok")      \* what follows on the new file is not modelled
   (* _check_database_structure, table models:
      BEGIN; SELECT sqlite_master; [PRAGMA table_info]; [DROP TABLE IF EXISTS; CREATE TABLE]; commit *)
-  \/ /\ pc[p] = "cs1_begin" /\ UD /\ UR /\ Begin(p, ~DeferredSchemaTxn, "cs1_select")
-  \/ /\ pc[p] = "cs1_select" /\ UD /\ UR /\ Read(p, IF s.models = "absent" THEN "cs1_drop" ELSE "cs1_info")
-  \/ /\ pc[p] = "cs1_info" /\ UD /\ UR /\ Read(p, IF s.models = "ok" THEN "cs1_commit" ELSE "cs1_drop")
-  \/ /\ pc[p] = "cs1_drop"
+  \/ /\ pc[p] = "cs1_begin" /\ UO /\ UD /\ UR /\ Begin(p, ~DeferredSchemaTxn, "cs1_select")
+  \/ /\ pc[p] = "cs1_select" /\ UO /\ UD /\ UR /\ Read(p, IF s.models = "absent" THEN "cs1_drop" ELSE "cs1_info")
+  \/ /\ pc[p] = "cs1_info" /\ UO /\ UD /\ UR /\ Read(p, IF s.models = "ok" THEN "cs1_commit" ELSE "cs1_drop")
+  \/ /\ pc[p] = "cs1_drop" /\ UO
      /\ \/ /\ s.models = "absent" /\ UD /\ UNCHANGED lock       \* DROP IF EXISTS of a missing table: no write lock
            /\ Goto(p, "cs1_create") /\ Step(p, "drop-noop", "ok") /\ UR
         \/ /\ s.models # "absent" /\ WriteBusyNow(p) /\ Raise(p, "drop-models")
         \/ /\ s.models # "absent" /\ Write(p, [s EXCEPT !.models = "absent", !.rows = {}], "cs1_create", "drop-models") /\ UR
-  \/ /\ pc[p] = "cs1_create"
+  \/ /\ pc[p] = "cs1_create" /\ UO
      /\ \/ WriteBusyNow(p) /\ Raise(p, "create-models")
         \/ Write(p, [s EXCEPT !.models = "ok", !.rows = {}], "cs1_commit", "create-models") /\ UR
-  \/ /\ pc[p] = "cs1_commit" /\ UR /\ Commit(p, "cs2_begin")
+  \/ /\ pc[p] = "cs1_commit" /\ UO /\ UR /\ Commit(p, "cs2_begin")
   (* table metadata, same shape *)
-  \/ /\ pc[p] = "cs2_begin" /\ UD /\ UR /\ Begin(p, ~DeferredSchemaTxn, "cs2_select")
-  \/ /\ pc[p] = "cs2_select" /\ UD /\ UR /\ Read(p, IF s.meta = "absent" THEN "cs2_drop" ELSE "cs2_info")
-  \/ /\ pc[p] = "cs2_info" /\ UD /\ UR /\ Read(p, IF s.meta = "ok" THEN "cs2_commit" ELSE "cs2_drop")
-  \/ /\ pc[p] = "cs2_drop"
+  \/ /\ pc[p] = "cs2_begin" /\ UO /\ UD /\ UR /\ Begin(p, ~DeferredSchemaTxn, "cs2_select")
+  \/ /\ pc[p] = "cs2_select" /\ UO /\ UD /\ UR /\ Read(p, IF s.meta = "absent" THEN "cs2_drop" ELSE "cs2_info")
+  \/ /\ pc[p] = "cs2_info" /\ UO /\ UD /\ UR /\ Read(p, IF s.meta = "ok" THEN "cs2_commit" ELSE "cs2_drop")
+  \/ /\ pc[p] = "cs2_drop" /\ UO
      /\ \/ /\ s.meta = "absent" /\ UD /\ UNCHANGED lock
            /\ Goto(p, "cs2_create") /\ Step(p, "drop-noop", "ok") /\ UR
         \/ /\ s.meta # "absent" /\ WriteBusyNow(p) /\ Raise(p, "drop-meta")
         \/ /\ s.meta # "absent" /\ Write(p, [s EXCEPT !.meta = "absent", !.metaKeys = FALSE], "cs2_create", "drop-meta") /\ UR
-  \/ /\ pc[p] = "cs2_create"
+  \/ /\ pc[p] = "cs2_create" /\ UO
      /\ \/ WriteBusyNow(p) /\ Raise(p, "create-meta")
         \/ Write(p, [s EXCEPT !.meta = "ok", !.metaKeys = FALSE], "cs2_commit", "create-meta") /\ UR
-  \/ /\ pc[p] = "cs2_commit" /\ UR /\ Commit(p, "md_begin")
+  \/ /\ pc[p] = "cs2_commit" /\ UO /\ UR /\ Commit(p, "md_begin")
   (* INSERT OR IGNORE the two metadata keys (writing statements even when the keys exist) *)
-  \/ /\ pc[p] = "md_begin" /\ UD /\ UR /\ Begin(p, FALSE, "md_insert1")
-  \/ /\ pc[p] = "md_insert1" /\ UR /\ Write(p, s, "md_insert2", "insert-metadata")
-  \/ /\ pc[p] = "md_insert2" /\ UR /\ Write(p, [s EXCEPT !.metaKeys = TRUE], "md_commit", "insert-metadata")
-  \/ /\ pc[p] = "md_commit" /\ UR /\ Commit(p, "pr_begin")
+  \/ /\ pc[p] = "md_begin" /\ UO /\ UD /\ UR /\ Begin(p, FALSE, "md_insert1")
+  \/ /\ pc[p] = "md_insert1" /\ UO /\ UR /\ Write(p, s, "md_insert2", "insert-metadata")
+  \/ /\ pc[p] = "md_insert2" /\ UO /\ UR /\ Write(p, [s EXCEPT !.metaKeys = TRUE], "md_commit", "insert-metadata")
+  \/ /\ pc[p] = "md_commit" /\ UO /\ UR /\ Commit(p, "pr_begin")
   (* prune: DELETE expired rows; UPDATE last_prune *)
-  \/ /\ pc[p] = "pr_begin" /\ UD /\ UR /\ Begin(p, FALSE, "pr_delete")
-  \/ /\ pc[p] = "pr_delete" /\ UR /\ Write(p, s, "pr_update", "prune-delete")
-  \/ /\ pc[p] = "pr_update" /\ UR /\ Write(p, s, "pr_commit", "prune-update")
-  \/ /\ pc[p] = "pr_commit" /\ UNCHANGED res /\ Commit(p, "lk_begin")
+  \/ /\ pc[p] = "pr_begin" /\ UO /\ UD /\ UR /\ Begin(p, FALSE, "pr_delete")
+  \/ /\ pc[p] = "pr_delete" /\ UO /\ UR /\ Write(p, s, "pr_update", "prune-delete")
+  \/ /\ pc[p] = "pr_update" /\ UO /\ UR /\ Write(p, s, "pr_commit", "prune-update")
+  \/ /\ pc[p] = "pr_commit" /\ UO /\ UNCHANGED res /\ Commit(p, "lk_begin")
      /\ inited' = IF pc'[p] = "lk_begin" THEN inited \cup {p} ELSE inited
   (* lookup: BEGIN; SELECT; commit *)
-  \/ /\ pc[p] = "lk_begin" /\ UD /\ UR /\ Begin(p, FALSE, "lk_select")
-  \/ /\ pc[p] = "lk_select" /\ UD /\ UNCHANGED inited /\ Read(p, "lk_commit")
+  \/ /\ pc[p] = "lk_begin" /\ UO /\ UD /\ UR /\ Begin(p, FALSE, "lk_select")
+  \/ /\ pc[p] = "lk_select" /\ UO /\ UD /\ UNCHANGED inited /\ Read(p, "lk_commit")
      /\ res' = [res EXCEPT ![p] = IF t \in s.rows THEN "hit" ELSE "miss"]
-  \/ /\ pc[p] = "lk_commit" /\ UR
+  \/ /\ pc[p] = "lk_commit" /\ UO /\ UR
      /\ Commit(p, IF res[p] = "hit" THEN (IF TouchOnHit THEN "th_begin" ELSE "done_close") ELSE "parse_text")
   (* hit: UPDATE last_hit when always_update_last_hit or older than a day *)
-  \/ /\ pc[p] = "th_begin" /\ UD /\ UR /\ Begin(p, FALSE, "th_update")
-  \/ /\ pc[p] = "th_update" /\ UR /\ Write(p, s, "th_commit", "touch")
-  \/ /\ pc[p] = "th_commit" /\ UR /\ Commit(p, "done_close")
+  \/ /\ pc[p] = "th_begin" /\ UO /\ UD /\ UR /\ Begin(p, FALSE, "th_update")
+  \/ /\ pc[p] = "th_update" /\ UO /\ UR /\ Write(p, s, "th_commit", "touch")
+  \/ /\ pc[p] = "th_commit" /\ UO /\ UR /\ Commit(p, "done_close")
   (* miss: parse the text (no database access, no lock held), then INSERT OR REPLACE *)
-  \/ /\ pc[p] = "parse_text" /\ UD /\ UR /\ UNCHANGED lock /\ Goto(p, "st_begin") /\ Step(p, "parse", "ok")
-  \/ /\ pc[p] = "st_begin" /\ UD /\ UR /\ Begin(p, FALSE, "st_insert")
-  \/ /\ pc[p] = "st_insert" /\ UR /\ Write(p, [s EXCEPT !.rows = @ \cup {t}], "st_commit", "store")
-  \/ /\ pc[p] = "st_commit" /\ UR /\ Commit(p, "done_close")
+  \/ /\ pc[p] = "parse_text" /\ UO /\ UD /\ UR /\ UNCHANGED lock /\ Goto(p, "st_begin") /\ Step(p, "parse", "ok")
+  \/ /\ pc[p] = "st_begin" /\ UO /\ UD /\ UR /\ Begin(p, FALSE, "st_insert")
+  \/ /\ pc[p] = "st_insert" /\ UO /\ UR /\ Write(p, [s EXCEPT !.rows = @ \cup {t}], "st_commit", "store")
+  \/ /\ pc[p] = "st_commit" /\ UO /\ UR /\ Commit(p, "done_close")
   \/ /\ pc[p] = "done_close" /\ UD /\ UNCHANGED inited
      /\ lock' = [lock EXCEPT ![p] = "none"] /\ res' = [res EXCEPT ![p] = "tree"]
+     /\ open' = open \ {p} /\ UNCHANGED <<timeouts, removedInUse>>
      /\ Goto(p, "done") /\ Step(p, "close", "ok")
   (* the exception left parse(): the leaked connection (and its transaction) goes when it is collected *)
-  \/ /\ pc[p] = "raised" /\ (lock[p] # "none" \/ shadow[p] # NoShadow) /\ UR /\ UNCHANGED <<pc, db>>
-     /\ lock' = [lock EXCEPT ![p] = "none"] /\ shadow' = [shadow EXCEPT ![p] = NoShadow] /\ Step(p, "gc", "ok")
+  \/ /\ pc[p] = "raised" /\ (lock[p] # "none" \/ shadow[p] # NoShadow \/ p \in open) /\ UR /\ UNCHANGED <<pc, db>>
+     /\ lock' = [lock EXCEPT ![p] = "none"] /\ shadow' = [shadow EXCEPT ![p] = NoShadow]
+     /\ open' = open \ {p} /\ UNCHANGED <<timeouts, removedInUse>> /\ Step(p, "gc", "ok")
 
 AllDone == \A p \in Procs : pc[p] \in {"done", "raised"} /\ lock[p] = "none"
 Next == (\E p \in Procs : Proc(p)) \/ (AllDone /\ UNCHANGED vars)
@@ -184,6 +209,7 @@ Spec == Init /\ [][Next]_vars /\ WF_vars(Next)
 -----------------------------------------------------------------------------
 (* The property *)
 NoDbError == \A p \in Procs : res[p] # "raised"
+NoRemoveWhileInUse == ~removedInUse
 AtMostOneWriter == Cardinality({p \in Procs : HoldsWrite(p)}) <= 1
 NoReadDuringPendingEntry == \A p \in Procs : lock[p] = "pending" => \A q \in Others(p) : lock[q] \in {"none", "shared"}
 DbIntactAtEnd == AllDone => (/\ db.models = "ok" /\ db.meta = "ok" /\ db.metaKeys
@@ -191,6 +217,6 @@ DbIntactAtEnd == AllDone => (/\ db.models = "ok" /\ db.meta = "ok" /\ db.metaKey
 (* deadlock (every process waiting) is checked by TLC's deadlock detection: AllDone stutters *)
 Termination == <>AllDone
 
-View == <<pc, lock, db, shadow, inited, res>>
+View == <<pc, lock, db, shadow, inited, res, open, timeouts, removedInUse>>
 Log == PrintT(<<"TR", ToJson([src |-> [pc |-> pc, lock |-> lock, res |-> res], act |-> last', dst |-> [pc |-> pc', lock |-> lock', res |-> res']])>>)
 =============================================================================
